@@ -93,13 +93,24 @@ def prepareTimes (trunc : α → Int) (step : Step α) (tini tfin : α) : Except
       | none => .error .nonterm
     else .error .nonterm
 
+/-- `if running_id > 0 and T[running_id - 1] >= t: running_id = 0` (requested instants may come in any
+order: the scan restarts when the previous bracket is already past the instant); `none` = IndexError -/
+def rewind (T : List α) (t : α) (rid : Nat) : Option Nat :=
+  if rid = 0 then some 0
+  else match T[rid - 1]? with
+    | some v => if t ≤ v then some 0 else some rid
+    | none => none
+
 /-- the `for k in range(len(REF))` loop of `__resampleTemporal`; state = `running_id`. -/
 def temporalLoop (P : List (Fix α)) (T : List α) (tini tfin : α) : List α → Nat → Except Err (List (Fix α))
   | [], _ => .ok []
   | t :: rest, rid =>
     if t ≤ tini then temporalLoop P T tini tfin rest rid       -- continue
-    else if tfin < t then .ok []                                -- break
-    else match advance T t rid with
+    else if tfin < t then temporalLoop P T tini tfin rest rid   -- continue
+    else match rewind T t rid with
+      | none => .error .index
+      | some r0 =>
+      match advance T t r0 with
       | none => .error .index
       | some r =>
         match bracket P T t r with
